@@ -376,7 +376,9 @@ N1s:   return;
     };
 N2: processing[n_i][n_s] := TRUE;
     running[n_i][n_s] := TRUE;
-    if (IsB) { active[n_i][n_s] := EntryActive(n_i, n_s, n_named, n_occ.t); }
+    \* back: every region gets its history / initial state first; the states named by an explicit entry, fork or entry point are set
+    \* after the machine's own entry behaviour (N3)
+    if (IsB) { active[n_i][n_s] := EntryActive(n_i, n_s, <<>>, n_occ.t); }
     else if (Len(n_named) # NReg(n_s) /\ ~UseHist(n_s, n_occ.t)) {
        \* backmp11 without (matching) history: events pending from the previous activation are dropped before the machine's own entry
        \* behaviour runs; events raised by the entry behaviours of this activation are kept
@@ -387,6 +389,10 @@ N3: if (exc) { processing[n_i][n_s] := FALSE; return; }     \* the flag is reset
     else {
        if (IsM) {
           active[n_i][n_s] := EntryActive(n_i, n_s, n_named, n_occ.t);
+       } else {
+          active[n_i][n_s] := [rr \in 1..NReg(n_s) |->
+                IF \E nn \in 1..Len(n_named) : RegOf(n_s, n_named[nn]) = rr
+                THEN n_named[CHOOSE nn \in 1..Len(n_named) : RegOf(n_s, n_named[nn]) = rr] ELSE active[n_i][n_s][rr]];
        };
     };
 N4: while (n_r <= NReg(n_s)) {
